@@ -41,6 +41,26 @@ pub fn unhex(s: &str) -> Vec<u8> {
     (0..s.len() / 2).map(|i| u8::from_str_radix(&s[2 * i..2 * i + 2], 16).unwrap()).collect()
 }
 
+/// hang guard: a case that produces no result within 60 s is reported as a failing input (the process exits, which ends the stuck thread)
+static CASE_NO: std::sync::atomic::AtomicU64 = std::sync::atomic::AtomicU64::new(0);
+static CURRENT: std::sync::Mutex<String> = std::sync::Mutex::new(String::new());
+fn watchdog(tag: &'static str) {
+    std::thread::spawn(move || {
+        let (mut last, mut since) = (u64::MAX, std::time::Instant::now());
+        loop {
+            std::thread::sleep(std::time::Duration::from_millis(500));
+            let now = CASE_NO.load(std::sync::atomic::Ordering::SeqCst);
+            if now != last { last = now; since = std::time::Instant::now(); continue; }
+            if since.elapsed().as_secs() >= 60 {
+                let c = CURRENT.lock().map(|g| g.clone()).unwrap_or_default();
+                println!("{} {}\ndoes not terminate: no result within 60 s", tag, c);
+                exit(1);
+            }
+        }
+    });
+}
+fn begin_case(c: &str) { if let Ok(mut g) = CURRENT.lock() { *g = c.to_string(); } CASE_NO.fetch_add(1, std::sync::atomic::Ordering::SeqCst); }
+
 fn main() {
     let args: Vec<String> = env::args().collect();
     if args.len() < 3 {
@@ -64,7 +84,9 @@ fn main() {
             while i + 1 < args.len() { if args[i] == "--skip" { skips.push(args[i + 1].clone()); } i += 2; }
             let cases = (fam.cases)(ob);
             let n = cases.len();
+            watchdog("FOUND");
             for c in cases {
+                begin_case(&c);
                 let r = std::panic::catch_unwind(|| (fam.check)(&c));
                 let msg = match r {
                     Ok(None) => continue,
@@ -81,6 +103,8 @@ fn main() {
         }
         "run" => {
             let c = args.get(3).cloned().unwrap_or_default();
+            watchdog("FAIL");
+            begin_case(&c);
             let r = std::panic::catch_unwind(|| (fam.check)(&c));
             match r {
                 Ok(None) => {
